@@ -229,7 +229,10 @@ def cli_cases(draw):
             sizes.append(f'{L[0]}x{L[1]}')
         else:
             sizes.append(f'{L[0]}x{L[1]}x{L[2]}')
-    etas = draw(st.lists(st.sampled_from(['0.5', '1', '3', '10', '30', '100', '2.5', 'inf']),
+    # incl. ratios that agree to two or three decimals (a fine bias sweep)
+    etas = draw(st.lists(st.sampled_from(['0.5', '1', '3', '10', '30', '100', '2.5', 'inf',
+                                          '0.502', '0.504', '10.001', '10.004', '0.75',
+                                          '0.752', '1000', '1e4']),
                          min_size=1, max_size=4, unique=True))
     args = {'code': code, 'decoder': dec, 'sizes': sizes,
             'bias': draw(st.sampled_from('XYZ')), 'etas': etas,
